@@ -201,7 +201,7 @@ BLOCKED = re.compile(r"goroutine \d+ \[(semacquire|sync\.Mutex\.Lock|sync\.RWMut
 
 def harness_cases(ck, binp, args, tag):
     """run the harness; a hang is neither erased nor reported from load alone: every hung case is re-run (same input,
-    30 s watchdog). The original stays a failure unless the re-run completes AND, in the first run's goroutine dump, no
+    15 s watchdog). The original stays a failure unless the re-run completes AND, in the first run's goroutine dump, no
     goroutine of pkg/txpool was blocked on a lock/channel other than through a call the harness itself was holding."""
     env = {"GORACE": "log_path=%s exitcode=0 halt_on_error=0" % os.path.join(ck.work, "race_c14")}
     recs = ck.run_harness(binp, args, out_name=tag + ".jsonl", env_extra=env)
@@ -219,7 +219,7 @@ def harness_cases(ck, binp, args, tag):
     # clean sequential re-run erases: every hung case is re-run THREE times (the input file lists each case three times)
     open(inp, "w").write("".join(json.dumps(r) + "\n" for r in hung for _ in range(3)))
     again = ck.run_harness(binp, ["-in", inp, "-n", "0"], out_name=tag + "_rerun.jsonl", timeout=900,
-                           env_extra=dict(env, VERIF_WATCHDOG_MS="30000"))
+                           env_extra=dict(env, VERIF_WATCHDOG_MS="15000"))
     if again is None:
         # the re-run itself did not finish: the hung cases stay failures; do not add a second (harness) failure for it
         ck.failures = [f for f in ck.failures if not str(f.get("key", "")).startswith("obligation:harness-run")]
@@ -240,7 +240,7 @@ def harness_cases(ck, binp, args, tag):
     # hangs that three longer re-runs did not reproduce are kept visible in the evidence, not only in a note
     ck.extra["hang_unreproduced"] = ck.extra.get("hang_unreproduced", 0) + len(replaced)
     ck.extra["hang_kept_as_failure"] = ck.extra.get("hang_kept_as_failure", 0) + kept
-    ck.notes.append("%s: %d case(s) did not return within the watchdog; %d re-run three times with 30 s: %d completed and showed no pool goroutine "
+    ck.notes.append("%s: %d case(s) did not return within the watchdog; %d re-run three times with 15 s: %d completed and showed no pool goroutine "
                     "blocked (treated as load), %d kept as failures (dump in the replay)" % (tag, len(hung_all), len(hung), len(replaced), kept))
     return [replaced.get(id(r), r) for r in recs]
 
